@@ -163,6 +163,10 @@ type wireReq struct {
 func queryString(toks []string) string {
 	var sb strings.Builder
 	for _, t := range toks {
+		if t == "LONG" { // Tunnel.tla: a run of 6000 query bytes
+			sb.WriteString(strings.Repeat("xyz=1234&", 666) + "longer")
+			continue
+		}
 		sb.WriteString(t)
 	}
 	return sb.String()
